@@ -414,7 +414,8 @@ func runC13(w *World, r *Report, tier string) {
 		for _, c := range w.callsIn(f, "xmpp.EventManager.disconnected") {
 			n7++
 			k := w.funcKey(f)
-			r.Check(k == "xmpp.(*Client).recv", "R7", k+"→disconnected", w.ipos(c), "a Disconnected event is emitted for a connection whose session was never established: under a StreamManager the handler starts a second retry loop next to the one that is already retrying (history: established session lost; Resume: TCP accepted, stream cut during negotiation → connect() returns an error to the retry loop AND the drain goroutine emits Disconnected → two concurrent loops, two sessions)", "emitted by the receive loop only")
+			k = w.ownerKey(f)
+			r.Check(w.ownedOnlyBy(f, "xmpp.(*Client).recv"), "R7", k+"→disconnected", w.ipos(c), "a Disconnected event is emitted for a connection whose session was never established: under a StreamManager the handler starts a second retry loop next to the one that is already retrying (history: established session lost; Resume: TCP accepted, stream cut during negotiation → connect() returns an error to the retry loop AND the drain goroutine emits Disconnected → two concurrent loops, two sessions)", "emitted by the receive loop only")
 		}
 	}
 	if n7 == 0 {
@@ -457,6 +458,20 @@ func errOrigin(w *World, v ssa.Value) string {
 				return w.callKey(c)
 			}
 		case *ssa.Call:
+			// a helper that builds the error: the origin is that of what it returns (nil returns aside)
+			if callee := x.Call.StaticCallee(); isHelper(callee) && callee.Signature.Results().Len() == 1 {
+				set := map[string]bool{}
+				allInstrs(callee, func(in ssa.Instruction) {
+					if rt, ok := in.(*ssa.Return); ok && !isNilConst(rt.Results[0]) {
+						set[errOrigin(w, rt.Results[0])] = true
+					}
+				})
+				if len(set) == 1 {
+					for k := range set {
+						return k
+					}
+				}
+			}
 			return w.callKey(x)
 		case *ssa.UnOp:
 			if g, ok := x.X.(*ssa.Global); ok {
@@ -492,6 +507,10 @@ func errOrigin(w *World, v ssa.Value) string {
 			sort.Strings(os)
 			return "phi(" + strings.Join(os, "|") + ")"
 		case *ssa.Parameter:
+			if o := origin(x); o != ssa.Value(x) {
+				v = o
+				continue
+			}
 			return "param:" + x.Name()
 		}
 		break
